@@ -7,7 +7,10 @@
 (* of the relative error of the translation block caused by cancellation in the closed      *)
 (* forms ((1-cos t)/t^2, (e^s-1)/s, ...).  TLC enumerates every cell and checks that the     *)
 (* regimes are total and exclusive and that the model meets the property's tolerance in      *)
-(* every cell outside one band (sim3 with eps < |sigma| << 1): the design-level finding.     *)
+(* every cell.  The model of the pinned code (suffix 0: (e^s-1)/s evaluated directly, no     *)
+(* series regime) missed it in one band (sim3 with eps < |sigma| << 1): that was the          *)
+(* design-level finding behind repair 2cfaa17 (expm1 + bivariate series below eps^(1/4)),    *)
+(* and RepairCoversOldBand keeps the two models side by side.                                *)
 (* Magnitudes are decimal exponents: theta ~ 10^eT; ZeroE stands for an exact zero.          *)
 EXTENDS Naturals, Integers, Sequences, TLC
 
@@ -33,13 +36,18 @@ HasS(ty) == ty \in {"RxSO3", "Sim3"}
 FlagOK(dt, e, g) == (e = ZeroE => ~g) /\ (e # ZeroE /\ e < EpsE(dt) => ~g) /\ (e # ZeroE /\ e > EpsE(dt) => g)
 \* so3_Exp / so3_Jl: closed form iff theta > eps, Taylor otherwise
 RotRegime(gT) == IF gT THEN "closed" ELSE "taylor"
-\* rxso3_Ws: condition1..4
-WsRegime(gT, gS) ==
+\* eps^(1/4) ~ 1.2e-4 (f64) / 1.9e-2 (f32) lies in this decade
+QuartE(dt) == IF dt = "f64" THEN -4 ELSE -2
+\* sT / sS: the comparisons theta < eps^(1/4), |sigma| < eps^(1/4) of the series regime
+SmallOK(dt, e, sm) == (e = ZeroE => sm) /\ (e # ZeroE /\ e < QuartE(dt) => sm) /\ (e # ZeroE /\ e > QuartE(dt) => ~sm)
+\* rxso3_Ws: condition1..4, and 5 = the series regime that overrides 3 and 4 when both arguments are small
+WsRegime0(gT, gS) ==
   CASE ~gS /\ ~gT -> 1
     [] ~gS /\  gT -> 2
     []  gS /\ ~gT -> 3
     []  gS /\  gT -> 4
-WsConditions(gT, gS) == << ~gS /\ ~gT, ~gS /\ gT, gS /\ ~gT, gS /\ gT >>
+WsRegime(gT, gS, sT, sS) == IF gS /\ sT /\ sS THEN 5 ELSE WsRegime0(gT, gS)
+WsConditions(gT, gS, sT, sS) == << ~gS /\ ~gT, ~gS /\ gT, gS /\ ~gT /\ ~(sT /\ sS), gS /\ gT /\ ~(sT /\ sS), gS /\ sT /\ sS >>
 
 \* ------------------------------------------------------------------ error model (decimal exponents)
 Z(e) == IF e = ZeroE THEN -60 ELSE e                   \* an exact zero contributes nothing
@@ -50,43 +58,57 @@ ErrJl(dt, eT, gT) ==
   ELSE IF 2 * eT <= EpsE(dt) THEN Max2(eT, EpsE(dt))              \* 1 - cos rounds to 0: error ~ theta / 2
   ELSE IF eT < 0 THEN Max2(EpsE(dt) - eT, EpsE(dt)) ELSE EpsE(dt)
 \* sim3: t = W tau, W = A K + B K^2 + C I
-ErrC(dt, eS, gS) == IF ~gS THEN EpsE(dt)
-                    ELSE IF eS < 0 THEN Cap0(EpsE(dt) - eS) ELSE EpsE(dt)      \* (e^s - 1)/s
-ErrA(dt, eT, eS, gT, gS) ==
-  CASE WsRegime(gT, gS) = 1 -> EpsE(dt)
-    [] WsRegime(gT, gS) = 2 -> ErrJl(dt, eT, gT)
-    [] WsRegime(gT, gS) = 3 -> IF eS < 0 THEN Max2(EpsE(dt) - 2 * eS + Z(eT), EpsE(dt)) ELSE EpsE(dt)
-    [] WsRegime(gT, gS) = 4 -> IF Max2(eT, eS) < 0 THEN Max2(EpsE(dt) - 2 * Max2(eT, eS) + eT, EpsE(dt)) ELSE EpsE(dt)
-ErrB(dt, eT, eS, gT, gS) ==
-  CASE WsRegime(gT, gS) \in {1, 2} -> EpsE(dt)
-    [] WsRegime(gT, gS) = 3 -> IF eS < 0 THEN Max2(EpsE(dt) - 3 * eS + 2 * Z(eT), EpsE(dt)) ELSE EpsE(dt)
-    [] WsRegime(gT, gS) = 4 -> IF Max2(eT, eS) < 0 THEN Max2(EpsE(dt) + eS - 2 * Max2(eT, eS), EpsE(dt)) ELSE EpsE(dt)
-PredTransE(ty, dt, eT, eS, gT, gS) ==
+ErrC0(dt, eS, gS) == IF ~gS THEN EpsE(dt)
+                     ELSE IF eS < 0 THEN Cap0(EpsE(dt) - eS) ELSE EpsE(dt)     \* (e^s - 1)/s evaluated directly
+ErrC(dt, eS, gS) == EpsE(dt)                                                    \* expm1(s)/s
+ErrA0(dt, eT, eS, gT, gS) ==
+  CASE WsRegime0(gT, gS) = 1 -> EpsE(dt)
+    [] WsRegime0(gT, gS) = 2 -> ErrJl(dt, eT, gT)
+    [] WsRegime0(gT, gS) = 3 -> IF eS < 0 THEN Max2(EpsE(dt) - 2 * eS + Z(eT), EpsE(dt)) ELSE EpsE(dt)
+    [] WsRegime0(gT, gS) = 4 -> IF Max2(eT, eS) < 0 THEN Max2(EpsE(dt) - 2 * Max2(eT, eS) + eT, EpsE(dt)) ELSE EpsE(dt)
+ErrB0(dt, eT, eS, gT, gS) ==
+  CASE WsRegime0(gT, gS) \in {1, 2} -> EpsE(dt)
+    [] WsRegime0(gT, gS) = 3 -> IF eS < 0 THEN Max2(EpsE(dt) - 3 * eS + 2 * Z(eT), EpsE(dt)) ELSE EpsE(dt)
+    [] WsRegime0(gT, gS) = 4 -> IF Max2(eT, eS) < 0 THEN Max2(EpsE(dt) + eS - 2 * Max2(eT, eS), EpsE(dt)) ELSE EpsE(dt)
+\* series regime: truncation after total degree 3, remainder ~ max(theta, sigma)^4 < eps
+ErrA(dt, eT, eS, gT, gS, sT, sS) == IF WsRegime(gT, gS, sT, sS) = 5 THEN EpsE(dt) ELSE ErrA0(dt, eT, eS, gT, gS)
+ErrB(dt, eT, eS, gT, gS, sT, sS) == IF WsRegime(gT, gS, sT, sS) = 5 THEN EpsE(dt) ELSE ErrB0(dt, eT, eS, gT, gS)
+PredTransE0(ty, dt, eT, eS, gT, gS) ==
   CASE ty = "SE3"  -> ErrJl(dt, eT, gT)
-    [] ty = "Sim3" -> Cap0(Max2(Max2(ErrA(dt, eT, eS, gT, gS), ErrB(dt, eT, eS, gT, gS)), ErrC(dt, eS, gS)))
+    [] ty = "Sim3" -> Cap0(Max2(Max2(ErrA0(dt, eT, eS, gT, gS), ErrB0(dt, eT, eS, gT, gS)), ErrC0(dt, eS, gS)))
     [] OTHER       -> EpsE(dt)
-MeetsTolerance(ty, dt, eT, eS, gT, gS) == PredTransE(ty, dt, eT, eS, gT, gS) <= TolTransE(dt)
+PredTransE(ty, dt, eT, eS, gT, gS, sT, sS) ==
+  CASE ty = "SE3"  -> ErrJl(dt, eT, gT)
+    [] ty = "Sim3" -> Cap0(Max2(Max2(ErrA(dt, eT, eS, gT, gS, sT, sS), ErrB(dt, eT, eS, gT, gS, sT, sS)), ErrC(dt, eS, gS)))
+    [] OTHER       -> EpsE(dt)
+MeetsTolerance(ty, dt, eT, eS, gT, gS, sT, sS) == PredTransE(ty, dt, eT, eS, gT, gS, sT, sS) <= TolTransE(dt)
 
-\* the band in which the design (not only the code) misses the stated tolerance
-InBand(ty, dt, eS, gS) == ty = "Sim3" /\ gS /\ eS < 0 /\ EpsE(dt) - eS > TolTransE(dt)
+\* the band in which the pinned design (not only the code) missed the stated tolerance
+InBand0(ty, dt, eS, gS) == ty = "Sim3" /\ gS /\ eS < 0 /\ EpsE(dt) - eS > TolTransE(dt)
 
 \* ------------------------------------------------------------------ enumeration of all cells
 Exps(dt) == {ZeroE} \cup (-30 .. 1)
-VARIABLES ty, dt, eT, eS, gT, gS
+VARIABLES ty, dt, eT, eS, gT, gS, sT, sS
+vars == <<ty, dt, eT, eS, gT, gS, sT, sS>>
 Init == /\ ty \in Types /\ dt \in Dtypes
-        /\ eT \in Exps(dt) /\ gT \in BOOLEAN /\ FlagOK(dt, eT, gT)
+        /\ eT \in Exps(dt) /\ gT \in BOOLEAN /\ FlagOK(dt, eT, gT) /\ sT \in BOOLEAN /\ SmallOK(dt, eT, sT)
         /\ eS \in (IF HasS(ty) THEN Exps(dt) ELSE {ZeroE}) /\ gS \in BOOLEAN /\ FlagOK(dt, eS, gS)
-Next == UNCHANGED <<ty, dt, eT, eS, gT, gS>>
-Spec == Init /\ [][Next]_<<ty, dt, eT, eS, gT, gS>>
+        /\ sS \in BOOLEAN /\ SmallOK(dt, eS, sS)
+Next == UNCHANGED vars
+Spec == Init /\ [][Next]_vars
 
-RegimeTotal == LET c == WsConditions(gT, gS) IN
-               /\ \E i \in 1..4 : c[i]
-               /\ \A i, j \in 1..4 : (c[i] /\ c[j]) => i = j
-               /\ c[WsRegime(gT, gS)]
+RegimeTotal == LET c == WsConditions(gT, gS, sT, sS) IN
+               /\ \E i \in 1..5 : c[i]
+               /\ \A i, j \in 1..5 : (c[i] /\ c[j]) => i = j
+               /\ c[WsRegime(gT, gS, sT, sS)]
 RegimeContinuity ==      \* on both sides of the theta switch-over the se3 model is within tolerance
   /\ ErrJl(dt, EpsE(dt), FALSE) <= TolTransE(dt) /\ ErrJl(dt, EpsE(dt), TRUE) <= TolTransE(dt)
   /\ ErrJl(dt, EpsE(dt) + 1, TRUE) <= TolTransE(dt)
-ModelMeetsToleranceOutsideBand ==
-  MeetsTolerance(ty, dt, eT, eS, gT, gS) \/ (ty = "Sim3" /\ gS /\ eS < 0)
-BandIsPredicted == InBand(ty, dt, eS, gS) => ~MeetsTolerance(ty, dt, eT, eS, gT, gS)
+ModelMeetsTolerance == MeetsTolerance(ty, dt, eT, eS, gT, gS, sT, sS)
+\* the pinned model was within tolerance outside the band, missed it inside, and the repaired model covers the band
+OldModelOutsideBand == PredTransE0(ty, dt, eT, eS, gT, gS) <= TolTransE(dt) \/ (ty = "Sim3" /\ gS /\ eS < 0)
+OldBandWasPredicted == InBand0(ty, dt, eS, gS) => PredTransE0(ty, dt, eT, eS, gT, gS) > TolTransE(dt)
+RepairCoversOldBand == InBand0(ty, dt, eS, gS) => MeetsTolerance(ty, dt, eT, eS, gT, gS, sT, sS)
+\* the repair never predicts worse than the pinned model
+RepairNoWorse == PredTransE(ty, dt, eT, eS, gT, gS, sT, sS) <= PredTransE0(ty, dt, eT, eS, gT, gS)
 ================================================================================
